@@ -389,9 +389,9 @@ theorem ordOk_setParent {S : Ord} {d : Db} {c : Int} {p : Option Int} {row : Row
 
 theorem ordOk_removeCrate {S : Ord} {d : Db} {c : Int} {row : Row Bytes} (hg : get d.pl c = some row) (out : Out) :
     ordOk S (absF d) (.removeCrate c) out =
-      { kids := clearKeys (setKey S.kids row.key ((S.kids row.key).erase c)) (c :: descendantIds d.pl c),
-        ents := clearKeysE S.ents (c :: descendantIds d.pl c) } := by
-  simp only [ordOk, live_of_get hg, absF_parentOf_get hg, keyOf_parentOpt, if_true, descendantIds_eq]
+      { kids := clearKeys (setKey S.kids row.key ((S.kids row.key).erase c)) (c :: descSet d c),
+        ents := clearKeysE S.ents (c :: descSet d c) } := by
+  simp only [ordOk, live_of_get hg, absF_parentOf_get hg, keyOf_parentOpt, if_true, descSet]
 
 theorem chInv_createRoot {S : Ord} {d : Db} (hI : ChInv S d) (name : Bytes) :
     ChInv (ordStep S d (.createRoot name)) (step d (.createRoot name)).1 := by
@@ -570,7 +570,7 @@ theorem chInv_setParentCore {S : Ord} {d : Db} (hI : ChInv S d) {c : Int} {p : O
       rw [plUpdate_invalid d c row.key row.next hv'] at hstep
       exact chInv_throw hI hstep
 
-theorem chInv_setParent {S : Ord} {d : Db} (hI : ChInv S d) (c : Int) (p : Option Int) :
+theorem chInv_setParent {S : Ord} {d : Db} (hI : ChInv S d) (hP : PlInv d) (c : Int) (p : Option Int) :
     ChInv (ordStep S d (.setParent c p)) (step d (.setParent c p)).1 := by
   by_cases hpc : p = some c
   · subst hpc
@@ -586,11 +586,12 @@ theorem chInv_setParent {S : Ord} {d : Db} (hI : ChInv S d) (c : Int) (p : Optio
         rfl
       | some q =>
         by_cases he : plExists d q = true
-        · by_cases hdesc : q ∈ descendantIds d.pl c
-          · exact chInv_throw (e := exn "crate_invalid_parent") hI (by simp [step, hpc', hg, he, hdesc])
-          · have hdesc' : (descendantIds d.pl c).contains q = false := by simpa using hdesc
+        · obtain ⟨ds, hds, _⟩ := descendantIds_ok hP.wf c
+          by_cases hdesc : q ∈ ds
+          · exact chInv_throw (e := exn "crate_invalid_parent") hI (by simp [step, hpc', hg, he, hds, hdesc])
+          · have hdesc' : ds.contains q = false := by simpa using hdesc
             refine chInv_setParentCore hI hg ?_
-            simp only [step, hpc', hg, he, hdesc', setParentCore, keyOf]
+            simp only [step, hpc', hg, he, hds, hdesc', setParentCore, keyOf]
             rfl
         · have he' : plExists d q = false := by simpa using he
           exact chInv_throw (e := exn "crate_deleted") hI (by simp [step, hpc', hg, he'])
@@ -619,10 +620,20 @@ theorem cores_foldl_clearKey {t : Table Ent} (hn : (ids t).Nodup) (G : List Int)
       rw [contains_cons_ne hcg]
       simp [hcg]
 
-theorem chInv_removeCrate {S : Ord} {d : Db} (hI : ChInv S d) (c : Int) :
+theorem clearKeys_congr (A : Int → List Int) {G G' : List Int} (h : ∀ x, G.contains x = G'.contains x) :
+    clearKeys A G = clearKeys A G' := by
+  funext k; simp only [clearKeys, h k]
+
+theorem clearKeysE_congr (E : Int → List (Int × Ent)) {G G' : List Int} (h : ∀ x, G.contains x = G'.contains x) :
+    clearKeysE E G = clearKeysE E G' := by
+  funext k; simp only [clearKeysE, h k]
+
+theorem chInv_removeCrate {S : Ord} {d : Db} (hI : ChInv S d) (hP : PlInv d) (c : Int) :
     ChInv (ordStep S d (.removeCrate c)) (step d (.removeCrate c)).1 := by
   by_cases he : plExists d c = true
-  · have hstep : step d (.removeCrate c) = (plRemove d c, .ok none) := by simp [step, he]
+  · obtain ⟨ds, hds, hmem⟩ := descendantIds_ok hP.wf c
+    have hG : IsGone d c (c :: ds) := isGone_cons hmem
+    have hstep : step d (.removeCrate c) = (plRemove d (c :: ds), .ok none) := by simp [step, he, hds]
     have hc : c ∈ ids d.pl := plExists_iff.mp he
     have hn := hI.rk.ids_nodup
     have hpos := hI.rk.id_pos
@@ -632,58 +643,58 @@ theorem chInv_removeCrate {S : Ord} {d : Db} (hI : ChInv S d) (c : Int) :
       | some row => exact ⟨row, rfl⟩
     obtain ⟨hrow, hid⟩ := get_some hg
     have hord : ordStep S d (.removeCrate c) =
-        { kids := clearKeys (setKey S.kids row.key ((S.kids row.key).erase c)) (c :: descendantIds d.pl c),
-          ents := clearKeysE S.ents (c :: descendantIds d.pl c) } := by
-      rw [ordStep_ok hstep, ordOk_removeCrate hg]
+        { kids := clearKeys (setKey S.kids row.key ((S.kids row.key).erase c)) (c :: ds),
+          ents := clearKeysE S.ents (c :: ds) } := by
+      rw [ordStep_ok hstep, ordOk_removeCrate hg, clearKeys_congr _ hG.contains, clearKeysE_congr _ hG.contains]
     rw [hord, hstep]
     -- entries
-    obtain ⟨hpe0, hfires⟩ := R_foldl_clearKey hI.re fires fires_val hI.fires (c :: descendantIds d.pl c)
-    have hpe : R (fun l => (clearKeysE S.ents (c :: descendantIds d.pl c) l).map (·.1))
-        ((c :: descendantIds d.pl c).foldl (fun t i => clearKey fires t i) d.pe) := by
+    obtain ⟨hpe0, hfires⟩ := R_foldl_clearKey hI.re fires fires_val hI.fires (c :: ds)
+    have hpe : R (fun l => (clearKeysE S.ents (c :: ds) l).map (·.1))
+        ((c :: ds).foldl (fun t i => clearKey fires t i) d.pe) := by
       refine R_congr hpe0 ?_
       intro k
       unfold clearKeysE Ord.entIds
       split <;> simp
-    have hcpe : cores ((c :: descendantIds d.pl c).foldl (fun t i => clearKey fires t i) d.pe)
-        = (cores d.pe).filter (fun k => !(c :: descendantIds d.pl c).contains k.2.1) :=
+    have hcpe : cores ((c :: ds).foldl (fun t i => clearKey fires t i) d.pe)
+        = (cores d.pe).filter (fun k => !(c :: ds).contains k.2.1) :=
       cores_foldl_clearKey hI.re.ids_nodup _
     -- siblings: the row itself, then the descendants
-    have hclosed := gone_closed hn hpos hc
-    have hcores : cores ((c :: descendantIds d.pl c).foldl deleteCascade d.pl)
-        = (cores d.pl).filter (fun k => !(c :: descendantIds d.pl c).contains k.1) :=
+    have hclosed := gone_closed' hn hpos hc hG
+    have hcores : cores ((c :: ds).foldl deleteCascade d.pl)
+        = (cores d.pl).filter (fun k => !(c :: ds).contains k.1) :=
       cores_foldl_deleteCascade _ _ hclosed
     have h1 := R_deleteCascade hI.rk hg
-    have hkeys : ∀ a ∈ descendantIds d.pl c, ∀ r ∈ deleteCascade d.pl c, r.id = a → r.key ∈ c :: descendantIds d.pl c := by
+    have hkeys : ∀ a ∈ ds, ∀ r ∈ deleteCascade d.pl c, r.id = a → r.key ∈ c :: ds := by
       intro a ha r hr e
       obtain ⟨r0, hr0, hcore⟩ := mem_deleteCascade_core hr
       have e1 : r0.id = r.id := congrArg (·.1) hcore
       have e2 : r0.key = r.key := congrArg (·.2.1) hcore
       rw [← e2]
-      have hanc := (mem_descendantIds.mp ha).2
+      have hanc := (mem_descSet.mp ((hmem a).mp ha)).2
       obtain ⟨p', hp', hor⟩ := Forest.isAncestor_step hanc
       rw [← e, ← e1, absF_parentOf_row hn hr0, parentOpt_eq_some] at hp'
       rw [hp'.1]
       rcases hor with h | h
       · rw [h]; simp
-      · refine List.mem_cons_of_mem _ (mem_descendantIds.mpr ⟨?_, h⟩)
+      · refine List.mem_cons_of_mem _ ((hmem _).mpr (mem_descSet.mpr ⟨?_, h⟩))
         rw [← absF_ids]; exact Forest.descendant_live h
-    obtain ⟨A', hA', hA'eq⟩ := R_foldl_deleteCascade (c :: descendantIds d.pl c) (descendantIds d.pl c) _ _ h1
+    obtain ⟨A', hA', hA'eq⟩ := R_foldl_deleteCascade (c :: ds) ds _ _ h1
       (fun a ha => List.mem_cons_of_mem _ ha) hkeys
-    have hfinal : (c :: descendantIds d.pl c).foldl deleteCascade d.pl
-        = (descendantIds d.pl c).foldl deleteCascade (deleteCascade d.pl c) := rfl
-    have hkids : R (clearKeys (setKey S.kids row.key ((S.kids row.key).erase c)) (c :: descendantIds d.pl c))
-        ((c :: descendantIds d.pl c).foldl deleteCascade d.pl) := by
+    have hfinal : (c :: ds).foldl deleteCascade d.pl
+        = ds.foldl deleteCascade (deleteCascade d.pl c) := rfl
+    have hkids : R (clearKeys (setKey S.kids row.key ((S.kids row.key).erase c)) (c :: ds))
+        ((c :: ds).foldl deleteCascade d.pl) := by
       rw [hfinal]
       refine R_congr hA' ?_
       intro k
       unfold clearKeys
-      by_cases hk : (c :: descendantIds d.pl c).contains k = true
+      by_cases hk : (c :: ds).contains k = true
       · rw [if_pos hk]
         symm
         apply hA'.nil_of_no_rows
         intro r hr hrk
         rw [← hfinal] at hr
-        have hcr : core r ∈ cores ((c :: descendantIds d.pl c).foldl deleteCascade d.pl) := mem_cores.mpr ⟨r, hr, rfl⟩
+        have hcr : core r ∈ cores ((c :: ds).foldl deleteCascade d.pl) := mem_cores.mpr ⟨r, hr, rfl⟩
         rw [hcores] at hcr
         obtain ⟨h2, h3⟩ := List.mem_filter.mp hcr
         have := hclosed (core r) h2 (by simp only [core]; rw [hrk]; exact hk)
@@ -691,7 +702,7 @@ theorem chInv_removeCrate {S : Ord} {d : Db} (hI : ChInv S d) (c : Int) :
         rw [this] at h3
         exact absurd h3 (by simp)
       · rw [if_neg hk]
-        have hk' : k ∉ c :: descendantIds d.pl c := fun h => hk (List.contains_iff_mem.mpr h)
+        have hk' : k ∉ c :: ds := fun h => hk (List.contains_iff_mem.mpr h)
         rw [hA'eq k hk']
         have hkc : k ≠ c := fun e => hk' (e ▸ List.mem_cons_self)
         rw [setKey_other _ _ hkc]
@@ -700,8 +711,8 @@ theorem chInv_removeCrate {S : Ord} {d : Db} (hI : ChInv S d) (c : Int) :
     · intro k hk
       rw [hcpe] at hk
       obtain ⟨hk1, hk2⟩ := List.mem_filter.mp hk
-      have hk2' : (c :: descendantIds d.pl c).contains k.2.1 = false := by simpa using hk2
-      show (k.1, k.2.2) ∈ clearKeysE S.ents (c :: descendantIds d.pl c) k.2.1
+      have hk2' : (c :: ds).contains k.2.1 = false := by simpa using hk2
+      show (k.1, k.2.2) ∈ clearKeysE S.ents (c :: ds) k.2.1
       unfold clearKeysE
       rw [hk2']
       exact hI.pay k hk1
@@ -870,7 +881,7 @@ theorem chInv_removeTrack {S : Ord} {d : Db} (hI : ChInv S d) (t : Int) :
       exact hI.trPos x (List.mem_filter.mp hx).1
   · exact chInv_throw (e := .invalid_argument) hI (by simp [step, hc])
 
-theorem chInv_step {S : Ord} {d : Db} (hI : ChInv S d) (op : Op) (hok : okOp op = true) :
+theorem chInv_step {S : Ord} {d : Db} (hI : ChInv S d) (hP : PlInv d) (op : Op) (hok : okOp op = true) :
     ChInv (ordStep S d op) (step d op).1 := by
   cases op with
   | createRoot n => exact chInv_createRoot hI n
@@ -878,8 +889,8 @@ theorem chInv_step {S : Ord} {d : Db} (hI : ChInv S d) (op : Op) (hok : okOp op 
   | createSub p n => exact chInv_createSub hI p n
   | createSubAfter p n a => exact chInv_createSubAfter hI p n a
   | rename c n => exact chInv_rename hI c n
-  | setParent c p => exact chInv_setParent hI c p
-  | removeCrate c => exact chInv_removeCrate hI c
+  | setParent c p => exact chInv_setParent hI hP c p
+  | removeCrate c => exact chInv_removeCrate hI hP c
   | createTrack =>
     have hstep : step d .createTrack = ({ d with tracks := d.tracks ++ [d.trSeq + 1], trSeq := d.trSeq + 1 }, .ok (some (d.trSeq + 1))) := rfl
     rw [ordStep_ok hstep, hstep]
@@ -940,7 +951,7 @@ theorem chInv_run {S : Ord} {d : Db} (hI : ChInv S d) (hP : PlInv d) (ops : List
   | nil => exact ⟨S, rfl, hI⟩
   | cons op ops ih =>
     simp only [List.all_cons, Bool.and_eq_true] at hok
-    obtain ⟨S', h1, h2⟩ := ih (chInv_step hI op hok.1) (plInv_step hP op) hok.2
+    obtain ⟨S', h1, h2⟩ := ih (chInv_step hI hP op hok.1) (plInv_step hP op) hok.2
     refine ⟨S', ?_, h2⟩
     simp only [specRunO, run]
     rw [judgeF_of_fstep hP (fstep hP.wf op)]
